@@ -81,6 +81,11 @@ def shapes(inst):
         {"name": "X", "type": "Process Zone"}, {"name": "Y", "type": "Process Zone"}]}))
     add("nested-labels", A.problem([hot, cold, cold2, hot2], ["A", "A/B", "A/B/C", "D"]))
     add("three-zones", A.problem([hot, cold, cold2, hot2, isoc], ["A", "B", "C", "A", "B"]))
+    # streams that carry no duty (a row a user has not filled in yet): with a span, without one, and nothing else
+    add("zero-duty-stream", A.problem([hot, cold, (T[2], T[1], 0.0, d)], ["A", "A", "A"]))
+    add("zero-duty-isothermal-stream", A.problem([hot, cold, (T[1], T[1], 0.0, d)], ["A", "A", "A"]))
+    add("zone-without-duty", A.problem([hot, cold, (T[1], T[1], 0.0, d), (T[2], T[1], 0.0, d)], ["A", "A", "B", "B"]))
+    add("only-zero-duty-streams", A.problem([(T[3], T[0], 0.0, d), (T[1], T[1], 0.0, d)], ["A", "A"]))
     return out
 
 
@@ -153,7 +158,7 @@ def run(case, res: Result):
         tb = traceback.extract_tb(exc.__traceback__)
         site = next((f"{f.filename.rsplit('/', 1)[-1]}:{f.name}" for f in reversed(tb) if "OpenPinch" in f.filename), "?")
         res.add_case(case, True, outcome="raises")
-        res.violate("raises", case, {"shape": name, "error": repr(exc)[:300], "where": site}, f"raises:{type(exc).__name__}:{site}:{_raise_cause(opts, name)}")
+        res.violate("raises", case, {"shape": name, "error": repr(exc)[:300], "where": site}, f"raises:{type(exc).__name__}:{site}:{_raise_cause(opts, prob)}")
         return
     res.add_case(case, True, outcome=[[t.name, round(S.num(t.Qh), 4), round(S.num(t.Qc), 4)] for t in out.targets], transitions=2)
     # re-validates and round-trips through JSON
@@ -218,10 +223,17 @@ def _env_cause(x, prob):
     return "other"
 
 
-def _raise_cause(opts, shape):
+def _raise_cause(opts, prob):
     """Narrow cause class of an exception: the option that switches the failing code path on (independent of other deviations)."""
     if opts.get("DO_INDIRECT_PROCESS_TARGETING") is True:
         return "DO_INDIRECT_PROCESS_TARGETING=True"
+    if opts.get("DO_AREA_TARGETING") is True:
+        duty = {}
+        for st in prob["streams"]:
+            q = st["heat_flow"]["value"] if isinstance(st["heat_flow"], dict) else st["heat_flow"]
+            duty[st["zone"]] = duty.get(st["zone"], 0.0) + abs(q)
+        if any(v == 0.0 for v in duty.values()):
+            return "DO_AREA_TARGETING=True:a-zone-whose-streams-carry-no-duty"
     return ",".join(f"{k}={v}" for k, v in sorted(opts.items())) or "defaults"
 
 
@@ -232,7 +244,7 @@ SUBCHECKS = {
         rule="case = (input shape, option deviations); every case is non-trivial by construction (a degenerate shape or a deviating option); "
              "transitions = 2 service calls (the repeat check); outcomes = distinct target lists or 'raises'",
         cases=cases, run=run,
-        bound=lambda t: "21 named shapes x all option assignments with <=1 deviation (18) + all <=2-multisets of 36 lattice stream types x {defaults, each boolean option flipped}" if t == "quick"
-        else "21 named shapes x all option assignments with <=2 deviations (~150) + lattice multisets x all <=1 deviations",
+        bound=lambda t: "25 named shapes x all option assignments with <=1 deviation (18) + all <=2-multisets of 36 lattice stream types x {defaults, each boolean option flipped}" if t == "quick"
+        else "25 named shapes x all option assignments with <=2 deviations (~150) + lattice multisets x all <=1 deviations",
     ),
 }
